@@ -50,7 +50,7 @@ func c07Checker(run *evid.Run, cfg Cfg) {
 			run.Distinct("table-shape " + s)
 		}
 		wnames, wrels := namePool(r, c07Wallets)
-		anames, arels := namePool(r, c07Accounts)
+		anames, arels := namePool(r, c07Accounts, true)
 		anames, arels = append(anames, ""), append(arels, "wallet-only")
 		for q := 0; q < 400; q++ {
 			wi, ai := r.Intn(len(wnames)), r.Intn(len(anames))
